@@ -75,7 +75,7 @@ _QUICK_COUNTERS = {
     "sample_calls": 5000, "choices_calls": 2700, "random_sample_computes": 3600, "sample_k_gt_n": 1700, "sample_k_eq_0": 750,
     "sample_0_lt_k_le_n_ok": 2500, "choices_ok": 2300, "empty_partition_cases": 900, "threads_runs": 2300, "processes_runs": 65,
     "multi_level_reduce": 2900, "subsequence_ok": 700, "same_recompute": 700, "same_rebuild": 700, "same_threads": 700,
-    "same_rebuild_threads": 700, "same_processes": 15, "same_rebuild_processes": 15,
+    "same_rebuild_threads": 700, "same_computed_with_sibling_samples": 700, "random_sample_with_siblings": 700, "same_processes": 15, "same_rebuild_processes": 15,
 }
 FLOORS = {
     "quick": {"evaluations": 1800, "distinct_nontrivial": 1600, "counters": _QUICK_COUNTERS, "max_skipped_fraction": 0.1},
@@ -347,6 +347,23 @@ def run_case(case, ctx):
             ("rebuild", lambda: _compute(bag.random_sample(prob, state()), "sync")),
             ("threads", lambda: _compute(rs, "threads")),
             ("rebuild-threads", lambda: _compute(bag.random_sample(prob, state()), "threads"))]
+
+    def with_siblings():
+        # recomputed in one graph with other samples of the same bag (same state and another prob; same prob and
+        # another state): every sample must still be its own stand-alone result
+        import dask
+
+        p2 = 1.0 - prob if abs(prob - 0.5) > 0.05 else 0.9
+        sib1 = bag.random_sample(p2, state())
+        sib2 = bag.random_sample(prob, sd + 1)
+        alone = [_compute(sib1, "sync"), _compute(sib2, "sync")]
+        a, mine, b = dask.compute(sib1, rs, sib2, scheduler="sync")
+        ctx.count("random_sample_with_siblings")
+        if [G.canon(x) for x in a] != [G.canon(x) for x in alone[0]] or [G.canon(x) for x in b] != [G.canon(x) for x in alone[1]]:
+            return ["<sibling sample changed when computed together>"]
+        return mine
+
+    runs.append(("computed-with-sibling-samples", with_siblings))
     if case.get("proc"):
         runs.append(("processes", lambda: _compute(rs, "processes")))
         runs.append(("rebuild-processes", lambda: _compute(bag.random_sample(prob, state()), "processes")))
